@@ -103,6 +103,13 @@ func (p *P2P) NewConnection(conn net.Conn, info *lib.PeerInfo) (*MultiConn, lib.
 	if err != nil {
 		return nil, err
 	}
+	// overwrite the incomplete peer info with the complete and authenticated info before the services start:
+	// the receive service attaches it to every inbound message as the sender
+	info.Address = &lib.PeerAddress{
+		PublicKey:  eConn.Address.PublicKey,
+		NetAddress: info.Address.NetAddress,
+		PeerMeta:   eConn.Address.PeerMeta,
+	}
 	c := &MultiConn{
 		conn:          eConn,
 		uuid:          rand.Uint64(),
